@@ -332,6 +332,14 @@ Call(e) ==
                           \cup (IF Len(got) = 1 /\ Len(want) = 1 /\ got[1].op # want[1].op THEN {"C05"} ELSE {})
                           \cup (IF Len(got) = 1 /\ Len(want) = 1 /\ got[1].rev # want[1].rev THEN {"C17"} ELSE {}),
                         e, <<"live", c2, Class(pre)>>, BriefEvs(want), BriefEvs(got))})
+        \* ---- a backfill describes a version exactly as the live event did (C09, C08): whatever the specification
+        \*      expects, the two descriptions of one version (same key, same CAS) must not differ
+        fAgree ==
+            IF e.skiplive \/ isPurge \/ Len(LiveOf(e, c)) # 1 THEN 0
+            ELSE LET lv == LiveOf(e, c)[1]
+                     bf == {i \in 1..Len(nd[c]) : nd[c][i].op \in {"mut", "del"} /\ nd[c][i].key = lv.key /\ nd[c][i].cas = lv.cas} IN
+                 Cardinality({i \in bf : nd[c][i] # lv
+                     /\ Fail({"C09", "C08"}, e, <<"live-and-backfill-disagree", c, Class(pre)>>, BriefEvs(<<lv>>), BriefEvs(<<nd[c][i]>>))})
         \* ---- the bucket-level feed over all collections delivers the same events, tagged with the right collection (C08, C11)
         mliveOf(c2) == IF Len(e.mlive) = 0 THEN liveWant(c2)
                        ELSE EvsOf(e.mlive[CHOOSE i \in 1..Len(e.mlive) : e.mlive[i].c = c2].evs)
@@ -398,7 +406,7 @@ Call(e) ==
     /\ dumps' = nd
     /\ clock' = IF mut /\ regular /\ ~isPurge /\ postObs.cas > clock THEN postObs.cas ELSE clock
     /\ start' = start
-    /\ nfail' = nfail + fStep + fRev + fShown + fFresh + fReaders + fOthers + fLive + fMlive + fKlive + fDump + fDump2 + (IF isPurge THEN 0 ELSE fAux + fFresh2)
+    /\ nfail' = nfail + fStep + fRev + fShown + fFresh + fReaders + fOthers + fLive + fAgree + fMlive + fKlive + fDump + fDump2 + (IF isPurge THEN 0 ELSE fAux + fFresh2)
     /\ evlog' = IF mut /\ ~isPurge THEN [evlog EXCEPT ![c] = Append(@, <<e.i, EventOf(k, post, CollId(c))>>)] ELSE evlog
     /\ verlog' = [c2 \in Colls |->
                     LET ks == {k2 \in Keys : newDocs[c2][k2] # docs[c2][k2]} IN
